@@ -96,18 +96,30 @@ pub struct Stats {
     pub heir_abandoned: bool,
     pub second_handle: bool,
     pub superseded_error: bool,
-    pub abandoned_unpolled_holder: bool,
+    pub abandoned_while_stopped: bool,
 }
 
 /// An outstanding `node_store` future.
 pub struct Pend<P: PlanePersistence> {
     fut: BoxFuture<'static, Result<P::Node, StoreError>>,
-    /// A later request for the same uri was made while this one was outstanding (the in-memory
-    /// store documents that the earlier one may then fail: "Multiple copies of agent instance starting").
+    id: u64,
+    /// The request waited together with another request for the same uri (the in-memory store documents
+    /// that all but the newest then fail: "Multiple copies of agent instance starting").
     superseded: bool,
-    /// Something that may have held the agent's state (the instance in use, or another outstanding
-    /// request) was dropped while this request was outstanding, i.e. the state may have been handed to it.
-    maybe_heir: bool,
+    /// The request holds the agent's state only because a previous holder was dropped while it was
+    /// waiting (hand-over), as opposed to having been created while the agent was idle.
+    inherited: bool,
+}
+
+/// Where the state of an agent is, in terms of the API calls made so far (exclusive hand-over as
+/// documented on `NodeEntry` in the in-memory store): in the plane store, in the instance in use, or in
+/// an outstanding request. Only used to decide whether a pending future is legitimate and to name the
+/// one lifecycle corner that is a listed finding; RocksDB handles are not exclusive and never depend on it.
+#[derive(Clone, Copy, PartialEq, Eq, Debug)]
+enum Holder {
+    Idle,
+    Live,
+    Request(u64),
 }
 
 pub struct Exec<'c, P: PlanePersistence, F> {
@@ -121,8 +133,12 @@ pub struct Exec<'c, P: PlanePersistence, F> {
     nodes: Vec<Option<P::Node>>,
     /// Outstanding `node_store` futures per agent, oldest first.
     pending: Vec<Vec<Pend<P>>>,
-    /// A request that may have been handed the agent's state was dropped unresolved.
+    /// A request that had been handed the agent's state was dropped unresolved.
     heir_abandoned: Vec<bool>,
+    holder: Vec<Holder>,
+    /// The newest waiting request (the one a dropped holder hands the state to).
+    heir: Vec<Option<u64>>,
+    next_pend_id: u64,
     /// Ids obtained from the current node store instance.
     sess_ids: Vec<Option<Id<P>>>,
     /// First id ever observed per item.
@@ -156,6 +172,9 @@ where
             nodes: uris.iter().map(|_| None).collect(),
             pending: uris.iter().map(|_| vec![]).collect(),
             heir_abandoned: uris.iter().map(|_| false).collect(),
+            holder: uris.iter().map(|_| Holder::Idle).collect(),
+            heir: uris.iter().map(|_| None).collect(),
+            next_pend_id: 0,
             sess_ids: items.iter().map(|_| None).collect(),
             first_ids: items.iter().map(|_| None).collect(),
             tainted: items.iter().map(|_| None).collect(),
@@ -205,7 +224,8 @@ where
         while i < self.pending[agent].len() {
             match poll_once(&mut self.pending[agent][i].fut) {
                 Poll::Ready(Ok(n)) => {
-                    self.pending[agent].remove(i);
+                    let p = self.pending[agent].remove(i);
+                    self.became_live(agent, p.id);
                     self.nodes[agent] = Some(n);
                     return Ok(());
                 }
@@ -214,37 +234,57 @@ where
                     if p.superseded {
                         self.stats.superseded_error = true;
                     } else {
-                        return Err(self.store_err("node_store", None, e));
+                        return Err(self.node_store_err(agent, e));
                     }
                 }
                 Poll::Pending => i += 1,
             }
         }
-        let q = self.life_qual(agent);
         if !self.pending[agent].is_empty() {
             let d = format!(
                 "{} outstanding node_store({:?}) request(s) do not resolve although no node store for that uri is in use",
                 self.pending[agent].len(),
                 self.uris[agent]
             );
-            self.fail(format!("{}:node_store-pending{}", self.bk, q), d);
+            self.lifecycle_fail(agent, "node_store-pending", d);
             return Err(Abort);
         }
         let mut fut = self.plane.as_ref().unwrap().node_store(&self.uris[agent]);
         match poll_once(&mut fut) {
-            Poll::Ready(Ok(n)) => self.nodes[agent] = Some(n),
-            Poll::Ready(Err(e)) => return Err(self.store_err("node_store", None, e)),
+            Poll::Ready(Ok(n)) => {
+                self.nodes[agent] = Some(n);
+                self.holder[agent] = Holder::Live;
+            }
+            Poll::Ready(Err(e)) => return Err(self.node_store_err(agent, e)),
             Poll::Pending => {
                 // No other instance for this uri is alive and no request is outstanding: nothing to wait for.
                 let d = format!(
                     "node_store({:?}) did not resolve although no node store for that uri is in use and no other request is outstanding",
                     self.uris[agent]
                 );
-                self.fail(format!("{}:node_store-pending{}", self.bk, q), d);
+                self.lifecycle_fail(agent, "node_store-pending", d);
                 return Err(Abort);
             }
         }
         Ok(())
+    }
+
+    /// A `node_store` request that fails or does not resolve. Once a request that had been handed the
+    /// agent's state has been dropped unresolved (listed finding) the agent cannot be opened any more;
+    /// every form of that is one signature.
+    fn lifecycle_fail(&mut self, agent: usize, what: &str, detail: String) {
+        if self.heir_abandoned[agent] {
+            let d = format!("{} (after a request that had been handed the agent's state was dropped unresolved)", detail);
+            self.fail(format!("{}:node_store-unavailable/abandoned-heir", self.bk), d);
+        } else {
+            self.fail(format!("{}:{}", self.bk, what), detail);
+        }
+    }
+
+    fn node_store_err(&mut self, agent: usize, e: StoreError) -> Abort {
+        let d = format!("node_store({:?}) failed: {:?}", self.uris[agent], e);
+        self.lifecycle_fail(agent, "error:node_store", d);
+        Abort
     }
 
     /// Signature qualifier for lifecycle related failures of an agent.
@@ -439,11 +479,11 @@ where
                 (false, false) => self.nontarget_labels.1,
             };
             let lq = self.life_qual(self.items[item].agent);
-            let sig = if !lq.is_empty() {
-                format!("{}:state-lost{}", self.bk, lq)
-            } else if self.tainted[item].is_some() {
+            let sig = if self.tainted[item].is_some() {
                 // consequence of an id collision that is reported on its own
                 format!("{}:data-interference{}", self.bk, self.qual(item))
+            } else if !lq.is_empty() {
+                format!("{}:state-lost{}", self.bk, lq)
             } else {
                 format!("{}:{}", self.bk, what)
             };
@@ -483,20 +523,42 @@ where
         }
     }
 
-    fn drop_node(&mut self, agent: usize) {
-        if self.nodes[agent].take().is_some() {
-            for p in &mut self.pending[agent] {
-                p.maybe_heir = true;
+    /// The request `id` produced the node store that is now in use.
+    fn became_live(&mut self, agent: usize, id: u64) {
+        if self.heir[agent] == Some(id) {
+            self.heir[agent] = None;
+        }
+        self.holder[agent] = Holder::Live;
+    }
+
+    /// The current holder of the agent's state went away: the newest waiting request inherits it.
+    fn holder_gone(&mut self, agent: usize) {
+        let heir = self.heir[agent].take();
+        match heir.and_then(|h| self.pending[agent].iter_mut().find(|p| p.id == h)) {
+            Some(p) => {
+                p.inherited = true;
+                self.holder[agent] = Holder::Request(p.id);
             }
+            None => self.holder[agent] = Holder::Idle,
+        }
+    }
+
+    fn drop_node(&mut self, agent: usize) {
+        if self.nodes[agent].take().is_some() && self.holder[agent] == Holder::Live {
+            self.holder_gone(agent);
         }
         self.forget_session(agent);
     }
 
-    /// Outstanding requests are dropped first (abandoned while the instance is still there), then the
-    /// instances, then the plane store.
+    /// Outstanding requests are dropped first, newest first (so that a request is never dropped after
+    /// something that handed the agent's state to it: that corner is only produced by explicit
+    /// `Stop`/`Abandon` ops), then the instances, then the plane store.
     pub fn close_all(&mut self) {
         for a in 0..self.uris.len() {
-            self.pending[a].clear();
+            while !self.pending[a].is_empty() {
+                let last = self.pending[a].len() - 1;
+                self.abandon(a, last);
+            }
             self.drop_node(a);
         }
         self.plane = None;
@@ -509,11 +571,26 @@ where
                 Err(e) => return Err(self.store_err("open", None, e)),
             }
         }
-        for p in &mut self.pending[agent] {
-            p.superseded = true;
+        let id = self.next_pend_id;
+        self.next_pend_id += 1;
+        let mut contended = false;
+        if self.holder[agent] == Holder::Idle {
+            self.holder[agent] = Holder::Request(id);
+        } else {
+            let holder = self.holder[agent];
+            for p in &mut self.pending[agent] {
+                if holder != Holder::Request(p.id) {
+                    p.superseded = true;
+                    contended = true;
+                }
+            }
+            self.heir[agent] = Some(id);
         }
         let fut = self.plane.as_ref().unwrap().node_store(&self.uris[agent]);
-        self.pending[agent].push(Pend { fut, superseded: false, maybe_heir: false });
+        // Which of several waiting requests gets the state is the store's policy (the in-memory store
+        // serves the newest and fails the others): a failure is accepted from any request that waited
+        // together with another one.
+        self.pending[agent].push(Pend { fut, id, superseded: contended, inherited: false });
         if self.pending[agent].len() >= 2 {
             self.stats.two_outstanding = true;
         }
@@ -525,16 +602,19 @@ where
         if self.nodes[agent].is_some() {
             self.stats.abandoned_while_running = true;
         } else {
-            self.stats.abandoned_unpolled_holder = true;
+            self.stats.abandoned_while_stopped = true;
         }
-        if p.maybe_heir {
+        if self.heir[agent] == Some(p.id) {
+            self.heir[agent] = None;
+        }
+        let was_holder = self.holder[agent] == Holder::Request(p.id);
+        if was_holder && p.inherited {
             self.heir_abandoned[agent] = true;
             self.stats.heir_abandoned = true;
         }
         drop(p);
-        // the dropped future may itself have held the node store
-        for p in &mut self.pending[agent] {
-            p.maybe_heir = true;
+        if was_holder {
+            self.holder_gone(agent);
         }
     }
 
@@ -632,31 +712,31 @@ where
                         self.stats.reopen_with_data = true;
                     }
                     self.request(agent)?;
-                    let mut p = self.pending[agent].pop().unwrap();
-                    let first = poll_once(&mut p.fut);
-                    // the old instance goes away only now
-                    self.drop_node(agent);
-                    let res = match first {
-                        Poll::Ready(r) => r,
-                        Poll::Pending => {
-                            self.stats.handover_pending = true;
-                            match poll_once(&mut p.fut) {
-                                Poll::Ready(r) => r,
-                                Poll::Pending => {
-                                    let d = format!(
-                                        "node_store({:?}) requested while the previous instance was alive still pending after that instance was dropped",
-                                        self.uris[agent]
-                                    );
-                                    let q = self.life_qual(agent);
-                                    self.fail(format!("{}:handover-pending{}", self.bk, q), d);
-                                    return Err(Abort);
-                                }
-                            }
+                    let last = self.pending[agent].len() - 1;
+                    match poll_once(&mut self.pending[agent][last].fut) {
+                        Poll::Ready(Ok(n)) => {
+                            // not exclusive (RocksDB): the old handle goes away after the new one exists
+                            let p = self.pending[agent].remove(last);
+                            self.drop_node(agent);
+                            self.became_live(agent, p.id);
+                            self.nodes[agent] = Some(n);
                         }
-                    };
-                    match res {
-                        Ok(n) => self.nodes[agent] = Some(n),
-                        Err(e) => return Err(self.store_err("node_store(handover)", None, e)),
+                        Poll::Ready(Err(e)) => {
+                            let p = self.pending[agent].remove(last);
+                            if self.heir[agent] == Some(p.id) {
+                                self.heir[agent] = None;
+                            }
+                            if !p.superseded {
+                                return Err(self.node_store_err(agent, e));
+                            }
+                            self.stats.superseded_error = true;
+                            self.drop_node(agent);
+                        }
+                        Poll::Pending => {
+                            // the old instance goes away only now; the sweep resolves the request
+                            self.stats.handover_pending = true;
+                            self.drop_node(agent);
+                        }
                     }
                 }
                 self.sweep(None, false, "after handing the node store over to a new instance")?;
@@ -687,17 +767,21 @@ where
                     let w = pick_index(*which, self.pending[agent].len());
                     match poll_once(&mut self.pending[agent][w].fut) {
                         Poll::Ready(Ok(n)) => {
-                            self.pending[agent].remove(w);
+                            let p = self.pending[agent].remove(w);
                             match self.nodes[agent].take() {
                                 None => {
+                                    self.became_live(agent, p.id);
                                     self.nodes[agent] = Some(n);
                                     self.forget_session(agent);
                                     self.sweep(None, false, "after an outstanding node_store request resolved")?;
                                 }
                                 Some(old) => {
-                                    // two handles for one uri at once: what was written through the old
-                                    // one is read through the new one, then one of them goes away
+                                    // two handles for one uri at once (RocksDB): what was written through
+                                    // the old one is read through the new one, then one of them goes away
                                     self.stats.second_handle = true;
+                                    if self.heir[agent] == Some(p.id) {
+                                        self.heir[agent] = None;
+                                    }
                                     self.nodes[agent] = Some(n);
                                     self.forget_session(agent);
                                     self.sweep(None, false, "through a second node store handle for the same uri")?;
@@ -707,30 +791,30 @@ where
                                         self.nodes[agent] = Some(old);
                                         self.forget_session(agent);
                                     }
-                                    for p in &mut self.pending[agent] {
-                                        p.maybe_heir = true;
-                                    }
                                     self.sweep(None, false, "after dropping one of two node store handles for the same uri")?;
                                 }
                             }
                         }
                         Poll::Ready(Err(e)) => {
                             let p = self.pending[agent].remove(w);
+                            if self.heir[agent] == Some(p.id) {
+                                self.heir[agent] = None;
+                            }
                             if p.superseded {
                                 self.stats.superseded_error = true;
                             } else {
-                                return Err(self.store_err("node_store", None, e));
+                                return Err(self.node_store_err(agent, e));
                             }
                         }
                         Poll::Pending => {
-                            // legitimate only while something else can hold the agent's state
+                            // legitimate while something else (the instance in use or another
+                            // outstanding request) can hold the agent's state
                             if self.nodes[agent].is_none() && self.pending[agent].len() == 1 {
                                 let d = format!(
                                     "the only outstanding node_store({:?}) request is pending although no node store for that uri is in use",
                                     self.uris[agent]
                                 );
-                                let q = self.life_qual(agent);
-                                self.fail(format!("{}:node_store-pending{}", self.bk, q), d);
+                                self.lifecycle_fail(agent, "node_store-pending", d);
                                 return Err(Abort);
                             }
                         }
@@ -791,10 +875,10 @@ fn case_classes(v: &mut Verdict, case: &Case, uris: &[String], items: &[FlatItem
     v.class_if(stats.key_prefix_pair, "key-prefix-of-key");
     v.class_if(stats.id_collision, "id-collision-observed");
     v.class_if(stats.abandoned_while_running, "request-abandoned-while-running");
-    v.class_if(stats.abandoned_unpolled_holder, "request-abandoned-while-stopped");
+    v.class_if(stats.abandoned_while_stopped, "request-abandoned-while-stopped");
     v.class_if(stats.two_outstanding, "two-outstanding-requests");
     v.class_if(stats.superseded_error, "superseded-request-failed");
-    v.class_if(stats.heir_abandoned, "possible-heir-abandoned");
+    v.class_if(stats.heir_abandoned, "heir-abandoned");
     v.class_if(stats.second_handle, "two-handles-one-uri");
     v.class_if(uris.len() >= 2, "agents>=2");
     v.class_if(case.prealloc > 0, "ids-around-256");
